@@ -88,6 +88,7 @@ def upstream(rng, n, alt_det, hostile=True):
     aH = math.asin(6378.1 / (6378.1 + alt_det))
     if math.radians(7) >= aH:
         cfg.simulation.angle_from_limb = 0.5 * aH
+    cfg = core.validated(cfg, "C20 upstream configuration")
     g = RegionGeom(cfg)
     np.random.seed(int(rng.integers(2**31)))
     beta, theta, L = g(int(n * 1.3) + 20)
